@@ -119,7 +119,7 @@ fn alias_store(t: &mut Tape, gd: &GlobalDataArc) {
     g.data.map.insert("ro".into(), ro);
 }
 
-fn mutate(src: &str, t: &mut Tape) -> String {
+pub fn mutate(src: &str, t: &mut Tape) -> String {
     let mut chars: Vec<char> = src.chars().collect();
     let n = 1 + t.below(4);
     for _ in 0..n {
